@@ -127,6 +127,9 @@ def run_geng(workdir, sched, seed, name="trace"):
                         "-seed", str(seed)], stdout=subprocess.PIPE, stderr=subprocess.STDOUT, text=True,
                        timeout=3600)
     if p.returncode != 0:
+        if p.returncode == 3 and "HANG:" in p.stdout:
+            return tp, {"crash": "a call into the gossip code did not return within the watchdog period: "
+                        + p.stdout[-2000:]}
         if "panic:" in p.stdout or "fatal error:" in p.stdout:
             return tp, {"crash": p.stdout[-6000:]}
         raise vp.Machinery("geng failed (%d):\n%s" % (p.returncode, p.stdout[-4000:]))
@@ -206,7 +209,7 @@ class TraceVerdict:
 
 
 def validate(chk, trace_path, nodes, invariants=None, module="TraceG", extra_consts=None, label="trace",
-             max_lines=9000):
+             max_lines=9000, cfg=None):
     """Validates a geng trace against the trace specification. Layer B (invariants on
     the implementation's state) decides; layer A (drift) is counted."""
     invariants = invariants or TRACE_INVARIANTS
@@ -220,8 +223,8 @@ def validate(chk, trace_path, nodes, invariants=None, module="TraceG", extra_con
             os.makedirs(wd)
             _specs(wd, module)
             os.replace(path, os.path.join(wd, "trace.ndjson"))
-            res = vp.run_tlc(wd, module, trace_cfg(nodes, invariants, extra_consts=extra_consts), workers=1,
-                             timeout=1800, heap="3g")
+            res = vp.run_tlc(wd, module, cfg or trace_cfg(nodes, invariants, extra_consts=extra_consts),
+                             workers=1, timeout=1800, heap="3g")
             out = {"i": i, "res": res, "starts": starts, "wd": wd}
             if res.violated or res.error or not res.ok:
                 out["lines"] = open(os.path.join(wd, "trace.ndjson")).read().splitlines()
